@@ -80,7 +80,7 @@ class Gen:
     def upds(self):
         r = self.r
         return [r.choice([('assign', 0, 0), ('assign', 0, 0), ('assign', 1, 0, 'd'), ('assign', 1, 0, 'x'), ('assign', 1, 1), ('assign', 0, 1), ('other', 0), ('other', 1),
-                          ('assign', 1, 0, 'xh'), ('assign', 1, 0, 'mixed'), ('assign', 1, 1, 'hh')]) for _ in range(r.randrange(0, 4))]
+                          ('assign', 1, 0, 'xh'), ('assign', 1, 0, 'mixed'), ('assign', 1, 1, 'hh'), ('assign', 1, 0, 'chain'), ('assign', 1, 0, 'compound')]) for _ in range(r.randrange(0, 4))]
 
     def vars(self):
         r = self.r
@@ -144,9 +144,9 @@ def g_sx(g):
 def u_txt(u, rng):
     if u[0] == 'assign':
         fp, hy = u[1], u[2]
-        if fp and hy: return '(i == 0 ? h : h) = 1.5' if len(u) > 3 else rng.choice(['h = 1.5', 'h = d + 1.5'])
+        if fp and hy: return rng.choice(['(i == 0 ? h : h) = 1.5', 'h = h = 1.5', 'h = 1.0 + (h = 2.5)']) if len(u) > 3 else rng.choice(['h = 1.5', 'h = d + 1.5'])
         if hy: return 'h = 1'
-        if fp: return rng.choice(['d = 1.5', 'x = 1.5', 'd = e + 1']) if len(u) < 4 else {'d': 'd = 1.5', 'x': 'x = 2.5', 'xh': 'x = h + 1.5', 'mixed': rng.choice(['(i == 0 ? h : x) = 2.5', '(b ? y : h) = 1.5'])}[u[3]]
+        if fp: return rng.choice(['d = 1.5', 'x = 1.5', 'd = e + 1']) if len(u) < 4 else {'d': 'd = 1.5', 'x': 'x = 2.5', 'xh': 'x = h + 1.5', 'mixed': rng.choice(['(i == 0 ? h : x) = 2.5', '(b ? y : h) = 1.5']), 'chain': rng.choice(['h = x = 1.5', 'h = 1.0 + (x = 1.5)', 'h = (d = 2.5)', 'i = (h = (y = 2.5)) > 1.0 ? 1 : 0']), 'compound': rng.choice(['i += fint(2.5)', 'j -= fint(d)', 'i = 1, j *= fint(e + 0.5)'])}[u[3]]
         return rng.choice(['i = 1', 'x = 0', 'j = i + 1'])
     return 'e = fabs(d), i++'.split(', ')[0] if False else ('i++' if not u[1] else 'fv(d)')
 
@@ -286,6 +286,28 @@ def reference_probes(run):
     return len(cases)
 
 
+def function_probes(run):
+    """floating-point assignments made inside functions that an update calls (directly, and through a second function); twins assign integers"""
+    T = ('<?xml version="1.0" encoding="utf-8"?><nta><declaration>clock x; hybrid clock h; int i; double d;\nvoid f0() { %s }\nvoid f1() { if (i > 0) f0(); }</declaration><template><name>T</name>'
+         '<location id="id0"/><location id="id1"/><init ref="id0"/><transition><source ref="id0"/><target ref="id1"/><label kind="assignment">%s</label></transition></template><system>system T;</system></nta>')
+    cases = [(body, call, restricts) for body, restricts in (('x = 1.5;', True), ('d = 2.5;', True), ('i = fint(d);', True), ('h = 1.5;', False), ('x = 1; i = 2;', False)) for call in ('f0()', 'i = 1, f1()')]
+    j = vlib.Job()
+    for k, c in enumerate(cases):
+        j.case('fp%d' % k, fork=True).model('xml', T % c[:2]).dump('errors').dump('supported').end()
+    rr = vlib.run_jobs(j)
+    for k, c in enumerate(cases):
+        r = rr['fp%d' % k]
+        if r['status'] != 'ok' or any(l.startswith('error') for l in r['cmds'][1][2]):
+            run.tie_broken('function-body probe is not accepted', dict(case=c, status=r['status'], errors=[l for l in r['cmds'][1][2] if l.startswith('error')][:2]))
+            continue
+        sym = 'symbolic=1' in ' '.join(r['cmds'][2][2])
+        if c[2] and sym:
+            run.fail('the update %r calls a function whose body executes %r: symbolic analysis is reported as supported' % (c[1], c[0]), dict(case=c, xml=T % c[:2]), shape='verdict:fp-assignment-in-function')
+        if not c[2] and not sym:
+            run.tie_broken('function-body probe: a model that restricts nothing is reported as not symbolically analysable', dict(case=c))
+    return len(cases)
+
+
 def check(run):
     thorough = run.tier == 'thorough'
     rng = run.rng
@@ -372,7 +394,7 @@ def check(run):
             samples.append(dict(doc=doc_sx(d), verdict=real))
     if mism:
         run.tie_broken('FeatureChecker model vs implementation verdicts', mism[:6] + [dict(total=len(mism))])
-    nrp = reference_probes(run)
+    nrp = reference_probes(run) + function_probes(run)
     run.cov['reference_parameter_probes'] = nrp
     run.cov.update(evaluations=len(docs), distinct_nontrivial=len(set(doc_sx(d) for d in docs)), traces_validated_against_impl=naccepted,
                    rule='targeted: every (operand fp/clock class)^2 x 6 relational operators x 6 positions (root, either conjunct, nested conjunct, under forall) as guard and as invariant; every rate constant x hybrid x 4 positions; hybrid rate x non-hybrid rate in one invariant (4 shapes); '
